@@ -168,6 +168,7 @@ def run(idx, rep, tier):
 
     # ------------------------------------------------------------ clause 4: flatten / unflatten agreement
     flatten_protocol(idx, rep)
+    class_table_ownership(idx, rep)
 
     rep.floor("write-site", 90)
     rep.floor("public-root-param-write", 150)
@@ -333,6 +334,48 @@ def self_write_verdict(idx, f, attr, in_ctor, s):
 
 
 # ---------------------------------------------------------------------------------------------
+def class_table_ownership(idx, rep):
+    """a class-level mutable table that instance code fills through `self.__class__.<table>[..] = ..` (the leaf / static
+    classification of attributes) must be owned per class: the metaclass has to give every new class -- including the
+    subclasses generated for parametric operators -- its own copy, unconditionally.  A shared table makes the first
+    instance ever built decide which attributes of all sibling classes are pytree leaves (the history dependence C18 excludes)."""
+    if not idx.has_cls("LinearOperator"):
+        return
+    base = idx.cls("LinearOperator")
+    tables = {t.id for st in base.node.body if isinstance(st, ast.Assign) and isinstance(st.value, (ast.Dict, ast.DictComp, ast.List, ast.Set)) for t in st.targets if isinstance(t, ast.Name)}
+    written = set()
+    for m in base.methods.values():
+        for n in df.body_nodes(m.node):
+            if isinstance(n, ast.Subscript) and isinstance(n.ctx, ast.Store) and isinstance(n.value, ast.Attribute) and n.value.attr in tables:
+                recv = ast.unparse(n.value.value).replace(" ", "")
+                if recv in ("self.__class__", "type(self)", "cls"):
+                    written.add(n.value.attr)
+    if not written:
+        rep.note("no class-level table of LinearOperator is written at instance time")
+        return
+    meta_name = next((ast.unparse(k.value) for k in base.node.keywords if k.arg == "metaclass"), None)
+    meta = idx.cls(meta_name.split(".")[-1]) if meta_name and idx.has_cls(meta_name.split(".")[-1]) else None
+    for tname in sorted(written):
+        construct = f"LinearOperator.{tname}"
+        if meta is None or "__init__" not in meta.methods:
+            rep.undecided("class-table", construct, f"`{tname}` is filled per instance through the class object; the metaclass that should copy it per class was not found")
+            continue
+        init = meta.methods["__init__"]
+        cls_p = init.params[0]
+        copies = [st for st in ast.walk(init.node) if isinstance(st, ast.Assign) and len(st.targets) == 1 and ast.unparse(st.targets[0]) == f"{cls_p}.{tname}"
+                  and isinstance(st.value, ast.Call) and ast.unparse(st.value.func) in (f"{cls_p}.{tname}.copy", "dict", "copy.copy", "copy.deepcopy")]
+        loc = [idx.loc(init.module, init.node)]
+        if not copies:
+            rep.refuted("class-table", construct, f"`{tname}` is filled per instance through the class object but {meta.name}.__init__ never gives a new class its own copy: all operator classes share one table",
+                        detail="shared", locs=loc)
+            continue
+        st = copies[0]
+        unconditional = any(x is st for x in init.node.body)
+        rep.decide(unconditional, "class-table", construct, f"{meta.name}.__init__ executes `{ast.unparse(st)}` " + ("for every class it creates" if unconditional else
+                   "only under a condition: classes for which it is skipped (e.g. the subclasses generated for parametric operators) share their parent's table, so the first instance ever "
+                   "built decides which attributes of every sibling class are pytree leaves"), detail="" if unconditional else "conditional-copy", locs=[idx.loc(init.module, st)])
+
+
 def flatten_protocol(idx, rep):
     if not idx.has_cls("LinearOperator"):
         rep.missing_anchor("LinearOperator")
